@@ -591,6 +591,7 @@ pub fn run_c13(ctx: &Ctx) -> Report {
         // (with the real clock the scanner's Debug output contains wall-clock instants: no finite keys)
         subs.push(bfs_polling(ctx, "C13", "bfs_timeout_0_frozen_clock", 11, 0, if ctx.reduced { &[5] } else { &[0, 1, 127] }));
     }
+    subs.push(constructed_sub(ctx, "C13"));
     // scenario families
     {
         let cases = ctx.pick(2_000u64, 150_000, 800_000);
@@ -650,6 +651,7 @@ pub fn run_c14(ctx: &Ctx) -> Report {
     if HAVE_CLOCK {
         subs.push(bfs_polling(ctx, "C14", "bfs_timeout_0_frozen_clock", 15, 0, if ctx.reduced { &[5] } else { &[0, 1, 127] }));
     }
+    subs.push(constructed_sub(ctx, "C14"));
     Report {
         subs,
         rule: "history-observer invariants after every call: channel, number/kind from the latest number bytes before the call, value from actually received bytes (inc/dec: current message; 7-bit: most recent unreported controller-6 byte; 14-bit: most recent controller-6 and controller-38 bytes incl. the current one), no duplicate 7-bit report, no 7-bit after 14-bit use, no loss (outstanding byte reported by the next contributing message or the first late poll), shape of two-message results".into(),
@@ -673,4 +675,75 @@ pub fn replay_polling(prop: &str, _sub: &str, case: &Value) -> Option<CheckResul
         "scenario" => check_scenario_json(case),
         _ => None,
     }
+}
+
+// ---------------------------------------------------------------------------------------------
+// constructed state x input (full value range of the data bytes)
+// ---------------------------------------------------------------------------------------------
+
+/// prefix form 0..6 with value bytes a, b, then a time step and one probe operation
+fn constructed_history(ch: u8, form: u8, a: u8, b: u8, number: u16, registered: bool, dt: u64, probe: Op) -> Vec<Op> {
+    let (cm, cl) = if registered { (101, 100) } else { (99, 98) };
+    let mut ops = vec![Op::cc(ch, cm, (number >> 7) as u8), Op::cc(ch, cl, (number & 127) as u8)];
+    match form % 7 {
+        0 => {}
+        1 => ops.push(Op::cc(ch, 6, a)),
+        2 => ops.push(Op::cc(ch, 38, a)),
+        3 => ops.extend([Op::cc(ch, 6, a), Op::cc(ch, 38, b)]),
+        4 => ops.extend([Op::cc(ch, 38, b), Op::cc(ch, 6, a)]),
+        5 => ops.extend([Op::cc(ch, 6, a), Op::cc(ch, 38, b), Op::cc(ch, 38, a)]),
+        _ => ops.extend([Op::cc(ch, 6, a), Op::cc(ch, 6, b)]),
+    }
+    if dt > 0 && HAVE_CLOCK {
+        ops.push(Op::Advance(dt));
+    }
+    ops.push(probe);
+    ops
+}
+
+fn constructed_sub(ctx: &Ctx, prop: &'static str) -> Sub {
+    let timeout: u64 = if HAVE_CLOCK { 1_000 } else { 0 };
+    let mut probes: Vec<Op> = Vec::new();
+    let ch = 10u8;
+    for cn in NRPN_CONTROLLERS {
+        for v in [0u8, 1, 127] {
+            probes.push(Op::cc(ch, cn, v));
+        }
+    }
+    probes.push(Op::Poll(ch));
+    probes.push(Op::cc(ch, 7, 9));
+    let dts: Vec<u64> = if HAVE_CLOCK { vec![0, timeout - 1, timeout, timeout + 1] } else { vec![0] };
+    let numbers = [(0u16, false), (16383, true), (129, true), (8192 + 77, false)];
+    let np = probes.len() as u64;
+    let nd = dts.len() as u64;
+    let stride = ctx.pick(211u64, 7, 1);
+    let total = 7 * 128 * 128 * np * nd * numbers.len() as u64;
+    let proto = Sub::new(
+        "constructed_state_x_input",
+        &format!("7 prefix forms after a selection (nothing / MSB / LSB / MSB+LSB / LSB+MSB / MSB+LSB+LSB / MSB+MSB) x all 128 x 128 values of the two data bytes x 4 numbers x time steps {:?} ns (timeout {} ns) x {} probe operations (every controller x {{0,1,127}}, poll, a transparent CC), judged by the history observer; stride {}", dts, timeout, np, stride),
+        "non-trivial = every constructed history",
+        stride == 1,
+    );
+    let mut sub = par_enum(ctx, &proto, total / stride, |sub, j| {
+        let mut i = j * stride;
+        let probe = probes[(i % np) as usize];
+        i /= np;
+        let dt = dts[(i % nd) as usize];
+        i /= nd;
+        let (number, registered) = numbers[(i % numbers.len() as u64) as usize];
+        i /= numbers.len() as u64;
+        let (b, a, form) = ((i % 128) as u8, ((i / 128) % 128) as u8, (i / 16384) as u8);
+        sub.eval(
+            j as u128,
+            || poll_case_json(timeout, &constructed_history(ch, form, a, b, number, registered, dt, probe)),
+            || {
+                let ops = constructed_history(ch, form, a, b, number, registered, dt, probe);
+                let mut st = PollStats::default();
+                run_observed(prop, timeout, &ops, true, &mut st)?;
+                Ok(true)
+            },
+        );
+    });
+    sub.samples.push(poll_case_json(timeout, &constructed_history(ch, 3, 117, 24, 129, true, timeout, Op::Poll(ch))));
+    sub
 }
